@@ -34,21 +34,21 @@ vars == <<h, files, mb, l, skip>>
 
 Has(e, f) == f \in DOMAIN e
 NoH == [open |-> FALSE]
-Known(m) == m \in {-1, 1, 1024, 1536, 2560, 4096}
+Known(m) == m \in {-1, 0, 1, 1024, 1536, 2560, 4096}
 
 (* dispatch on the configured maximum buffer size (values below the minimum are clamped up to it) *)
-XNew(f)            == IF mb \in {1, 1024} THEN H1024!NewHandle(f) ELSE IF mb = 1536 THEN H1536!NewHandle(f)
+XNew(f)            == IF mb \in {0, 1, 1024} THEN H1024!NewHandle(f) ELSE IF mb = 1536 THEN H1536!NewHandle(f)
                       ELSE IF mb = 2560 THEN H2560!NewHandle(f) ELSE IF mb = 4096 THEN H4096!NewHandle(f) ELSE HDef!NewHandle(f)
-XFillBuf(x)        == IF mb \in {1, 1024} THEN H1024!FillBuf(x, FALSE, FALSE) ELSE IF mb = 1536 THEN H1536!FillBuf(x, FALSE, FALSE)
+XFillBuf(x)        == IF mb \in {0, 1, 1024} THEN H1024!FillBuf(x, FALSE, FALSE) ELSE IF mb = 1536 THEN H1536!FillBuf(x, FALSE, FALSE)
                       ELSE IF mb = 2560 THEN H2560!FillBuf(x, FALSE, FALSE) ELSE IF mb = 4096 THEN H4096!FillBuf(x, FALSE, FALSE)
                       ELSE HDef!FillBuf(x, FALSE, FALSE)
-XWrite(x, bs)      == IF mb \in {1, 1024} THEN H1024!Write(x, bs, FALSE) ELSE IF mb = 1536 THEN H1536!Write(x, bs, FALSE)
+XWrite(x, bs)      == IF mb \in {0, 1, 1024} THEN H1024!Write(x, bs, FALSE) ELSE IF mb = 1536 THEN H1536!Write(x, bs, FALSE)
                       ELSE IF mb = 2560 THEN H2560!Write(x, bs, FALSE) ELSE IF mb = 4096 THEN H4096!Write(x, bs, FALSE)
                       ELSE HDef!Write(x, bs, FALSE)
-XSeekTo(x, np)     == IF mb \in {1, 1024} THEN H1024!SeekTo(x, np, FALSE) ELSE IF mb = 1536 THEN H1536!SeekTo(x, np, FALSE)
+XSeekTo(x, np)     == IF mb \in {0, 1, 1024} THEN H1024!SeekTo(x, np, FALSE) ELSE IF mb = 1536 THEN H1536!SeekTo(x, np, FALSE)
                       ELSE IF mb = 2560 THEN H2560!SeekTo(x, np, FALSE) ELSE IF mb = 4096 THEN H4096!SeekTo(x, np, FALSE)
                       ELSE HDef!SeekTo(x, np, FALSE)
-XSetLen(x, n)      == IF mb \in {1, 1024} THEN H1024!SetLen(x, n, FALSE, FALSE) ELSE IF mb = 1536 THEN H1536!SetLen(x, n, FALSE, FALSE)
+XSetLen(x, n)      == IF mb \in {0, 1, 1024} THEN H1024!SetLen(x, n, FALSE, FALSE) ELSE IF mb = 1536 THEN H1536!SetLen(x, n, FALSE, FALSE)
                       ELSE IF mb = 2560 THEN H2560!SetLen(x, n, FALSE, FALSE) ELSE IF mb = 4096 THEN H4096!SetLen(x, n, FALSE, FALSE)
                       ELSE HDef!SetLen(x, n, FALSE, FALSE)
 XFlush(x)          == HDef!Flush(x, FALSE, FALSE)        \* (does not depend on the buffer constants)
